@@ -14,6 +14,62 @@ use common::*;
 use exprio::*;
 use std::convert::TryFrom;
 
+
+// ------------------------------------------------------------------------------------------------
+// depth boundaries: raw strings and trees of a given nesting depth, built without recursion
+
+pub const RAW_SHAPES: [&str; 14] = ["paren", "parenop", "rightand", "leftand", "flatand", "flatimp", "notchain", "notparen",
+    "condright", "condleft", "condmid", "mixed", "unbalopen", "unbalclose"];
+pub const TREE_SHAPES: [&str; 6] = ["t-right", "t-left", "t-not", "t-condelse", "t-condcond", "t-mixed"];
+
+fn deep_string(shape: &str, d: usize) -> String {
+    match shape {
+        "paren" => format!("{}a{}", "(".repeat(d), ")".repeat(d)),
+        "parenop" => format!("{}a & b{}", "(".repeat(d), ")".repeat(d)),
+        "rightand" => format!("{}a{}", "(a & ".repeat(d), ")".repeat(d)),
+        "leftand" => format!("{}a{}", "(".repeat(d), " & a)".repeat(d)),
+        "flatand" => format!("a{}", " & a".repeat(d)),
+        "flatimp" => format!("a{}", "=>b".repeat(d)),
+        "notchain" => format!("{}a", "!".repeat(d)),
+        "notparen" => format!("{}a{}", "!(".repeat(d), ")".repeat(d)),
+        "condright" => format!("{}c{}", "(a ? b : ".repeat(d), ")".repeat(d)),
+        "condleft" => format!("{}a{}", "(".repeat(d), " ? b : c)".repeat(d)),
+        "condmid" => format!("{}b{}", "(a ? ".repeat(d), " : c)".repeat(d)),
+        "mixed" => {
+            let ops = ["=>", "<=>", "|", "^", "&"];
+            let mut x = String::new();
+            for i in 0..d { x.push_str("(a "); x.push_str(ops[i % 5]); x.push(' '); }
+            x.push('a');
+            x.push_str(&")".repeat(d));
+            x
+        }
+        "unbalopen" => format!("{}a{}", "(".repeat(d), ")".repeat(d - 1)),
+        "unbalclose" => format!("{}a{}", "(".repeat(d - 1), ")".repeat(d)),
+        _ => panic!("shape {}", shape),
+    }
+}
+fn deep_tree(shape: &str, d: usize) -> BooleanExpression {
+    let va = || Box::new(Variable(s("a")));
+    let mut acc = Variable(s("a"));
+    for i in 0..d {
+        acc = match shape {
+            "t-right" => And(va(), Box::new(acc)),
+            "t-left" => Or(Box::new(acc), va()),
+            "t-not" => Not(Box::new(acc)),
+            "t-condelse" => Cond(va(), Box::new(Variable(s("b"))), Box::new(acc)),
+            "t-condcond" => Cond(Box::new(acc), va(), Box::new(Const(false))),
+            "t-mixed" => match i % 6 {
+                0 => Imp(va(), Box::new(acc)), 1 => Iff(Box::new(acc), va()), 2 => Xor(va(), Box::new(acc)),
+                3 => Not(Box::new(acc)), 4 => Cond(va(), Box::new(acc), Box::new(Const(true))), _ => Or(Box::new(acc), va()),
+            },
+            _ => panic!("shape {}", shape),
+        };
+    }
+    acc
+}
+/// a deep tree must not be dropped recursively by the harness itself
+fn forget_tree(e: BooleanExpression) { std::mem::forget(e); }
+
 fn outcome(x: &str) -> String {
     match catch(|| BooleanExpression::try_from(x)) {
         None => s("panic"),
@@ -64,7 +120,8 @@ pub fn run(key: &str, a: &[String], out: &mut Out) {
         }
         // code points start..start+count: class of parsing "a<cp>": w = Variable("a") (cp was skipped as
         // whitespace), i = Variable("a<cp>"), e = err, p = panic, o = any other Ok, - = not a scalar value
-        "C14.wsb" => {
+        "C14.wsb" | "C14.wsm" => {
+            let middle = key == "C14.wsm";
             let start: u32 = a[0].parse().unwrap();
             let count: u32 = a[1].parse().unwrap();
             let mut res = String::new();
@@ -72,7 +129,7 @@ pub fn run(key: &str, a: &[String], out: &mut Out) {
                 res.push(match char::from_u32(cp) {
                     None => '-',
                     Some(c) => {
-                        let x = format!("a{}", c);
+                        let x = if middle { format!("a{}b", c) } else { format!("a{}", c) };
                         match catch(|| BooleanExpression::try_from(x.as_str())) {
                             None => 'p',
                             Some(Err(_)) => 'e',
@@ -83,6 +140,35 @@ pub fn run(key: &str, a: &[String], out: &mut Out) {
                 });
             }
             out.case(key, a, &[res]);
+        }
+        // shape depth => input text, outcome — executed in a CHILD PROCESS (a native stack overflow kills the
+        // child only and is recorded as the outcome `crash`)
+        "C14.deep" => {
+            let exe = std::env::current_exe().unwrap();
+            let child = std::process::Command::new(exe).arg("replay").arg("C14.deepchild").arg(&a[0]).arg(&a[1]).output();
+            let line = match &child { Ok(o) if o.status.success() => String::from_utf8_lossy(&o.stdout).to_string(), _ => String::new() };
+            match line.trim_end().split_once(" => ") {
+                Some((_, obs)) => { let fields: Vec<String> = obs.split(' ').map(|x| x.to_string()).collect(); out.case(key, a, &fields); }
+                None => out.case(key, a, &[s("-"), s("crash")]),
+            }
+        }
+        "C14.deepchild" => {
+            let d: usize = a[1].parse().unwrap();
+            if a[0].starts_with("t-") {
+                let e = deep_tree(&a[0], d);
+                let printed = format!("{}", e);
+                forget_tree(e);
+                let parsed = catch(|| BooleanExpression::try_from(printed.as_str()));
+                let o = match &parsed { None => s("panic"), Some(Err(_)) => s("err"), Some(Ok(e2)) => format!("ok {}", sexp(e2)) };
+                if let Some(Ok(e2)) = parsed { forget_tree(e2); }
+                out.case(key, a, &[enc(&printed), o]);
+            } else {
+                let x = deep_string(&a[0], d);
+                let parsed = catch(|| BooleanExpression::try_from(x.as_str()));
+                let o = match &parsed { None => s("panic"), Some(Err(_)) => s("err"), Some(Ok(e2)) => format!("ok {}", sexp(e2)) };
+                if let Some(Ok(e2)) = parsed { forget_tree(e2); }
+                out.case(key, a, &[enc(&x), o]);
+            }
         }
         // tree => printed form, outcome of parsing the printed form   (rtu: names are not parser-safe)
         "C14.rt" | "C14.rtu" => {
@@ -301,6 +387,28 @@ pub fn gen(tier: Tier, rng: &mut Rng64, out: &mut Out) {
         }
     }
     while let Some(p) = pending.pop() { run("C14.tokb", &[p, s("3")], out); }
+    // --- depth boundaries (each case in a child process): u8 / i8 / u16-like limits of any nesting counter, and far beyond
+    let mut depths: Vec<usize> = vec![60, 127, 128, 255, 256, 257, 300, 1000];
+    if thorough { depths.extend_from_slice(&[511, 512, 2000, 3000, 4096, 5000]); }
+    for d in &depths {
+        for shape in RAW_SHAPES.iter().chain(TREE_SHAPES.iter()) { run("C14.deep", &[s(shape), d.to_string()], out); }
+    }
+    // --- identifier `a<c>b` for every code point: one Variable unless c is reserved or whitespace
+    let mut cp = 0u32;
+    while cp < 0x110000 { run("C14.wsm", &[cp.to_string(), step.to_string()], out); cp += step; }
+    // --- name characters chosen by their LOW BYTE: reserved characters and whitespace/control bytes shifted into
+    // higher planes must be ordinary name characters in first, middle and last position
+    for c in low_byte_chars() {
+        let names = [format!("{}ab", c), format!("a{}b", c), format!("ab{}", c), format!("{}", c)];
+        for nm in &names {
+            for pat in ["{}", "!{}", "{}&{}", "a|{}", "({})", "{}?{}:{}", "{}=>{}", "{}<=>{}", "{}^a", " {} ", "!({}&b)|{}"] {
+                run("C14.chr", &[enc(&pat.replace("{}", nm))], out);
+            }
+            run("C14.rt", &[sexp(&Variable(nm.clone()))], out);
+            run("C14.rt", &[sexp(&Iff(Box::new(Variable(nm.clone())), Box::new(Not(Box::new(Variable(nm.clone()))))))], out);
+            run("C14.rt", &[sexp(&Cond(Box::new(Variable(nm.clone())), Box::new(Variable(s("a"))), Box::new(Variable(nm.clone()))))], out);
+        }
+    }
     // --- deep nesting (<= 50 levels)
     for depth in [10usize, 25, 50] {
         for inner in ["a", "a & b", "a ? b : c", "", "!a"] {
